@@ -2,7 +2,10 @@ package rux
 
 // C02 — path parameters are exactly the substrings the pattern captured.
 
-import "regexp"
+import (
+	"net/url"
+	"regexp"
+)
 
 var verifC02Pool = []string{
 	"/a/{v}", `/a/{v:\d+}`, "/a/{v}/b", "/a/{v}.x", "/ab/{v:[a-z]+}", "/v1.0/{v}", "/a/b{v}", "/a/{v}/{w}", "/a/b[/{v}]",
@@ -13,6 +16,8 @@ var verifC02Pool = []string{
 	`/p/{num:[0-9]{2}}`, `/{any:\d+}`, `/a/{all:[a-z]+}`,
 	// dynamic patterns without any variable (optional part only)
 	"/ab[/x]", "/a[.html]", "/a/b[/c[/d]]",
+	// custom regexes made of several non-capturing groups (sequence, alternation)
+	`/i/{file:(?:[a-z]+)\.(?:jpg|png)}`, `/v/{ver:(?:v\d)|(?:new)}/d`,
 }
 
 // verifReconstruct rebuilds the path from the pattern and the reported
@@ -201,4 +206,57 @@ func verifHarness_C02_twoRoutes() {
 			verifCover("C02 second route matched")
 		}
 	}
+}
+
+// With UseEncodedPath the router matches the escaped spelling of the request
+// path; the values a handler sees are the substrings of that spelling the
+// pattern captured (they substitute back to it) - on the first request and on
+// a repeated (cached) one.
+var verifC02EncPool = []string{"/{d}/{n}", "/f/{v}", `/{v:[a-z%0-9A-F]+}/x`, "/a/{file:.+}"}
+
+func verifHarness_C02_encoded() {
+	cfg := verifCfg()
+	pat := verifC02EncPool[cfg%len(verifC02EncPool)]
+	opts := []func(*Router){UseEncodedPath}
+	if (cfg/len(verifC02EncPool))%2 == 1 {
+		opts = append(opts, EnableCaching)
+	}
+	r := New(opts...)
+	var seen []Params
+	r.GET(pat, func(c *Context) {
+		cp := Params{}
+		for k, v := range c.Params {
+			cp[k] = v
+		}
+		seen = append(seen, cp)
+	})
+	n := verifLen("plen", 1, verifParam("L"))
+	tail := verifString("tail", n)
+	verifAssume(verifAlphabet(tail, "/%25Ffab."))
+	verifAssume(verifAnd(tail[0] != '/', tail[n-1] != '/'))
+	p := "/" + tail // the escaped spelling
+	dec, err := url.PathUnescape(p)
+	verifAssume(err == nil)
+	for round := 0; round < 2; round++ {
+		req := verifRequest("GET", dec)
+		if dec != p {
+			req.URL.RawPath = p
+		}
+		r.ServeHTTP(verifNewWriter(), req)
+	}
+	if !verifSpecMatches(pat, p) {
+		verifAssert(len(seen) == 0, "no handler runs for a path the pattern does not match")
+		verifCover("C02 encoded: no match")
+		return
+	}
+	verifAssert(len(seen) == 2, "both requests reach the route")
+	if len(seen) == 2 {
+		verifAssert(verifParamsOK(pat, p, seen[0]), "the handler's parameters are the captured substrings of the escaped path")
+		same := len(seen[0]) == len(seen[1])
+		for k, v := range seen[0] {
+			same = verifAnd(same, seen[1][k] == v)
+		}
+		verifAssert(same, "a repeated request sees the same parameter values")
+	}
+	verifCover("C02 encoded: matched")
 }
